@@ -100,7 +100,8 @@ def session_failure(script, out):
         return "server not idle within the watchdog: waiting for %s" % json.dumps(w[-1]["waiting_for"] if w else "?")
     if out.get("server_exited"):
         return "the server main loop exited"
-    if n_notif and out.get("max_version", -1) != n_notif - 1:
+    if n_notif and not out.get("hooks") and out.get("max_version", -1) != n_notif - 1:
+        # without hooks the only evidence that a notification was processed is its publication
         return "notification %d was not processed (highest published version %s)" % (n_notif - 1, out.get("max_version"))
     return None
 
@@ -246,7 +247,9 @@ def model_lines(exe, cmd, lines):
 
 
 def trace_line(items, events, old=False):
-    return "%d|%s|%s" % (1 if old else 0, " ".join(items), " ".join(events))
+    # bit 1: the build has the optional hook task.snapshot_drop -> the snapshot drop is an observed event
+    od = any(e.endswith(":snapshot_drop") for e in events)
+    return "%d|%s|%s" % ((1 if old else 0) + (2 if od else 0), " ".join(items), " ".join(events))
 
 
 # ------------------------------------------------------------------------------------------------ positions
